@@ -142,13 +142,13 @@ def run(tier, replay):
     return explore("C15", tier, replay)
 
 
-CLAIMED = False
+CLAIMED = True
 MANIFEST = dict(
     level="model_checking",
     engine="seqx (explicit-state BFS with state merging on the real FSM)",
-    technique="explicit-state breadth-first model checking of the real ts-meta raft FSM: every command of a ~230-entry menu (all "
-              "applyFunc entries, valid/duplicate/unknown/absent arguments) from 4 seeded catalogues to depth 3 (quick) / 4 (thorough), "
-              "each transition replayed on fresh stores and compared with a second replica and with snapshot->persist->restore at every cut position",
+    technique="explicit-state breadth-first model checking of the real ts-meta raft FSM: every command of a 202-entry menu (all 66 "
+              "applyFunc entries, valid/duplicate/unknown/absent arguments) from 4 seeded catalogues to depth 3 (quick) / "
+              "depth 3 plus depth 4 from the states reached by core-alphabet paths (thorough); each transition replayed on fresh stores and compared with a second replica and with snapshot->persist->restore at every cut position",
     text="All command sequences up to the depth bound (merged on the canonical catalogue dump) are applied through (*storeFSM).Apply to "
          "two independent stores and, for every cut position, to a store restored from Snapshot/Persist/Restore; results and complete "
          "sorted dumps must be equal.",
